@@ -648,4 +648,28 @@ theorem sem_addEqual {v : Label → Bool} {ins : List Label} {num : Nat} {out : 
           · rintro ⟨⟨a, b⟩, c⟩; exact ⟨a, b, c⟩
           · rintro ⟨a, b, c⟩; exact ⟨⟨a, b⟩, c⟩
 
+/-- **`add_equal`, any integer constant**: a negative constant is never equal to the (unsigned) operand -/
+theorem sem_addEqualZ {v : Label → Bool} {ins : List Label} {num : Int} {out : Label}
+    (h : Sem (addEqualZ ins num) v out) (hn : 1 ≤ ins.length) : (v out = true ↔ (valLE v ins : Int) = num) := by
+  cases num with
+  | ofNat n =>
+    have := sem_addEqual (num := n) h hn
+    rw [this]
+    exact ⟨fun e => by rw [e]; rfl, fun e => Int.ofNat.inj e⟩
+  | negSucc k =>
+    have hf : v out = false := by
+      have h' : Sem (emit ALWAYS_FALSE [] rfl) v out := h
+      unfold emit at h'
+      cases h' with
+      | fresh l0 h0 =>
+        cases h0 with
+        | add hb0 hp =>
+          cases hp
+          simp only [List.map_nil] at hb0
+          revert hb0; cases v out <;> decide
+    rw [hf]
+    constructor
+    · intro e; cases e
+    · intro e; exact absurd e (by omega)
+
 end Cirbo
